@@ -431,6 +431,39 @@ fn check_config(
             .collect()
     };
     let mut by_elimination = 0u64;
+    // An unclaimed position that carries the tag of a proof element OTHER than the common-data
+    // commitment words is an orphan: the packing side put a real element on an input that no
+    // target of the verifier structures stands for (so the circuit cannot be reading it as that
+    // element). Orphans are violations; what remains must be exactly the common-data words.
+    let common_set: std::collections::HashSet<usize> = common_leaves.iter().copied().collect();
+    let orphan_leaf = |vals: &[u64]| -> Option<usize> {
+        vals.iter().filter_map(|v| by_tag.get(v).copied()).find(|li| !common_set.contains(li))
+    };
+    let mut orphan_positions: Vec<(bool, usize, usize)> = vec![];
+    for &i in &unclaimed_pub {
+        if let Some(li) = orphan_leaf(&pl.packed.public[i]) {
+            orphan_positions.push((true, i, li));
+        }
+    }
+    for &i in &unclaimed_priv {
+        if let Some(li) = orphan_leaf(&pl.packed.private[i]) {
+            orphan_positions.push((false, i, li));
+        }
+    }
+    for &(is_pub, pos, li) in &orphan_positions {
+        let class = all[li].class.clone();
+        sink.violation(
+            format!("{cfg}|{class}|orphan_input"),
+            format!(
+                "{cfg}: {} input position {pos} receives {} but no target of the verifier's structures is allocated there: the element is packed onto an input the circuit does not read as that element",
+                if is_pub { "public" } else { "private" },
+                path_string(&all[li].path)
+            ),
+            json!({"config": cfg, "clause": "orphan_input", "path": path_string(&all[li].path), "class": class}),
+        );
+    }
+    let unclaimed_pub: Vec<usize> = unclaimed_pub.into_iter().filter(|i| !orphan_positions.iter().any(|(p, q, _)| *p && q == i)).collect();
+    let unclaimed_priv: Vec<usize> = unclaimed_priv.into_iter().filter(|i| !orphan_positions.iter().any(|(p, q, _)| !*p && q == i)).collect();
     if lengths_ok {
         if !unclaimed_priv.is_empty() || unclaimed_pub.len() != common_leaves.len() {
             machinery_error(&format!(
